@@ -60,6 +60,10 @@ CORPUS = [
     "convo 10 T0:26.1.0.0,2.7.24.0,2.7.24.0",                  # drum routine missing: the optimiser reports an input error (0e6e685)
     "conv P:-32768= T0:11.-32768.0.0,2.36.2.0",                  # empty platform command '' (fix d4781ad): input error, was tag[0] of an empty tag
     "conv P:-32768=, T0:2.36.2.0,11.-32768.0.0",
+    "conv P:-32768=cmd,0xfc,2 T0:11.-32768.0.0,2.36.2.0",      # a raw `cmd` injects a loop break / loop end without loop start:
+    "conv P:-32768=cmd,0xfb,2 T0:2.36.2.0,11.-32768.0.0",      # input error since fix 3e0ed67 (top() on an empty stack before)
+    "conv P:-32768=cmd,0xfb,2 T0:4.0.0.0,2.36.2.0,6.2.0.0,11.-32768.0.0",
+    "conv P:-32768=cmd,0xfa,0 T0:11.-32768.0.0,2.36.2.0",      # a loop start that is never closed
     "conv T0:4.0.0.0,2.36.24.0,5.0.0.0,2.38.24.0,5.0.0.0,2.40.24.0,6.2.0.0",                   # D23 (fixed): [c / d / e]2
     "conv T0:4.0.0.0,2.36.2.0,2.36.2.0,5.0.0.0,1.0.0.4,5.0.0.0,2.40.2.0,6.2.0.0",              # D23 (fixed): [c c / r / e]2
     # the non-vacuity song of C02_song_roundtrip_partial: A c L [d / *100 / e]2, *100 f r  (judge: ok proved-fragment)
